@@ -290,6 +290,9 @@ impl Searcher {
             return None;
         }
 
+        #[cfg(flounder_verif)]
+        verif::note_usable_entry(entry.depth, depth, &entry.bounds, entry.eval, alpha, beta);
+
         match entry.bounds {
             Bounds::Exact => {
                 return Some(SearchResult::new(entry.eval, entry.best_move));
@@ -414,6 +417,87 @@ impl Searcher {
     #[allow(dead_code)]
     fn push_position(&mut self, board: &Board) {
         self.repetition.push(self.zobrist.hash(board));
+    }
+}
+
+/// Verification hooks (compiled only with `--cfg flounder_verif`; add-only, no behaviour change).
+#[cfg(flounder_verif)]
+pub mod verif {
+    use crate::transposition::Bounds;
+    use std::cell::Cell;
+    use std::cmp::{max, min};
+
+    thread_local! {
+        /// table probes that answered a node from an entry searched DEEPER than the node required
+        static DEEPER_HITS: Cell<u64> = Cell::new(0);
+        /// table probes that answered a node at all
+        static HITS: Cell<u64> = Cell::new(0);
+    }
+
+    pub fn reset_counters() {
+        DEEPER_HITS.with(|c| c.set(0));
+        HITS.with(|c| c.set(0));
+    }
+
+    pub fn counters() -> (u64, u64) {
+        (HITS.with(|c| c.get()), DEEPER_HITS.with(|c| c.get()))
+    }
+
+    /// Called by probe_transposition_table once an entry passed the depth gate; mirrors the
+    /// decision that follows (exact, or window closed by the bound) only to COUNT answers.
+    pub fn note_usable_entry(entry_depth: u8, depth: u8, bounds: &Bounds, eval: i32, alpha: i32, beta: i32) {
+        let answers = match bounds {
+            Bounds::Exact => true,
+            Bounds::Lower => max(alpha, eval) >= beta,
+            Bounds::Upper => alpha >= min(beta, eval),
+        };
+        if answers {
+            HITS.with(|c| c.set(c.get() + 1));
+            if entry_depth > depth {
+                DEEPER_HITS.with(|c| c.set(c.get() + 1));
+            }
+        }
+    }
+}
+
+#[cfg(flounder_verif)]
+impl Searcher {
+    pub fn verif_hash(&self, board: &Board) -> u64 {
+        self.zobrist.hash(board)
+    }
+
+    pub fn verif_tt_entries(&self) -> Vec<crate::transposition::Entry> {
+        self.transposition_table.verif_entries()
+    }
+
+    pub fn verif_repetition_len(&self) -> usize {
+        self.repetition.len()
+    }
+
+    /// What the search would answer for `child` reached at ply 1 from `root`
+    /// (search_position pushes the root, negamax asks is_draw_by_repetition at ply > 0).
+    pub fn verif_is_repetition_draw(&mut self, root: &Board, child: &Board) -> bool {
+        self.repetition.push(self.zobrist.hash(root));
+        let draw = self.is_draw_by_repetition(child);
+        self.repetition.pop();
+        draw
+    }
+
+    /// Deadline in nodes for the following searches (None: no node budget).
+    pub fn verif_set_node_limit(&mut self, limit: Option<u64>) {
+        crate::timer::verif::set_node_limit(limit);
+    }
+
+    pub fn verif_nodes(&self) -> u64 {
+        self.timer.nodes()
+    }
+
+    /// One full-window search at exactly `depth` (no shallower iterations).
+    pub fn verif_search_fixed(&mut self, board: &Board, depth: u8) -> (i32, Option<Move>) {
+        self.timer.start(None);
+        self.history.age();
+        let result = self.search_position(board, depth);
+        (result.score, result.best_move)
     }
 }
 
